@@ -177,7 +177,7 @@ def make_subjects(binfo, scratch, seed, tier):
     # generated programs (the template family shared with C08/C09), small ones first in the list
     import progen
     for g in range(1 if tier == "quick" else 6):
-        progs.insert(1 + g, ("gen%02d.as" % g, progen.gen_program(vsim.Rng(seed, "c17-gen", g), size="tiny").encode()))
+        progs.insert(1 + g, ("gen%02d.as" % g, progen.gen_program(vsim.Rng(seed, "c17-gen", g), size="tiny").encode("latin-1")))
     want += 1 if tier == "quick" else 6
     outs = vsim.pmap(lambda p: write_world(binfo, scratch, p[0], p[1]), progs)
     nprog = 0
@@ -418,10 +418,31 @@ def read_world(binfo, scratch, subj, route, data, cpu=20):
     return r
 
 
+def arena_peak(r):
+    """bytes of heap the reader world obtained from the simulated OS"""
+    peak = 0
+    for t in vsim.parse_log(r.log)["sbrk"]:
+        # B callIx incr relAddr ok
+        if len(t) >= 5 and t[4] == "ok":
+            try:
+                peak = max(peak, int(t[3]) + max(0, int(t[2])))
+            except ValueError:
+                pass
+    return peak
+
+
+RUNAWAY = 200 << 20
+
+
 def judge(r, ref, route=None):
     fc = worlds.fault_class(r)
     if fc:
         return fc
+    # A reader that eats hundreds of megabytes over a file of a few kilobytes is in a loop that only
+    # the simulated arena's cap ends (without the cap: a fault or a hang).  One refused huge request
+    # - a garbage length - does not grow the arena and is an ordinary refusal.
+    if arena_peak(r) > RUNAWAY and arena_peak(ref) < RUNAWAY // 4:
+        return "runaway"
     if r.rc == 0:
         if r.files == ref.files and r.out == ref.out:
             return None
